@@ -256,12 +256,16 @@ def replay_units(behs, tmpdir, seed):
             # expected exponent per cell: Convert from the FIRST unit (path independence) with that cell's frequency
             knu = [int(round(np.log10(x))) for x in nxt.nu.to(u.Hz).value]
             got = nxt.flux.to(u.Unit(UNIT_STR[h['to']])).value
+            gote = nxt.error.to(u.Unit(UNIT_STR[h['to']])).value
             bad = None
             for a in range(na):
                 for w in range(nw):
                     want = convert_exp(u0, h['to'], p0 + a, knu[w], j)
                     if abs(got[a, w] / 10.0 ** want - 1.0) > 1e-9:
                         bad = 'cell (aperture %d, nu=1e%d Hz): %r %s, spec 1e%d' % (a, knu[w], got[a, w], h['to'], want)
+                        break
+                    if abs(gote[a, w] / 10.0 ** (want - 1) - 1.0) > 1e-9:
+                        bad = 'ERROR cell (aperture %d, nu=1e%d Hz): %r %s, spec 1e%d' % (a, knu[w], gote[a, w], h['to'], want - 1)
                         break
                 if bad:
                     break
